@@ -8,6 +8,8 @@ demo = " ".join(sys.argv[5:])
 wt = f"/tmp/seed/{tag}"
 patch = f"{wt}/out/patch{n}.diff"
 name = f"{pid}-{tag.lower()}-{n}" if tag != pid else f"{pid}-{n}"
+# keep a copy of the author's deliverables outside the worktree before anything else
+subprocess.run(["rsync", "-a", "--exclude", "*.log", "--exclude", "logs", "--exclude", "_hold", f"{wt}/out/", f"/var/tmp/seed-inbox/{tag}/"])
 env = dict(os.environ, CARGO_TARGET_DIR=f"{wt}/target")
 import fcntl
 wl = open(f"/tmp/seed/{tag}.lock", "w")
